@@ -10,4 +10,12 @@ def run(ctx):
         ctx, owners=OWNERS, n_valid=60, n_mut=260,
         rule="conformant scenarios (half with thread groups, two renderings each) and single-fault mutants owned by C06 (see harness/mutators.py), each mutant applied to a fresh conformant scenario; non-trivial = every mutant and every conformant scenario with a checkpoint; distinct by abstract scenario",
         trusted=[], prop_files=PROP_FILES if "PROP_FILES" in globals() else None)
+    # lifecycle across import files: native actions that create promises of imported types or edit imported promises
+    # after their imported creator (native and imported ids overlap)
+    import random, engine
+    scale = 1 if ctx.tier == "quick" else 10
+    engine.import_family(ctx, random.Random(ctx.seed + 6), 30 * scale, 0,
+                         what="T3 correspondence: promise lifecycle across import files, whole validator vs Coq model (Model/Imports.v)")
+
+
 PROP_FILES = ["C06_ancestry"]
